@@ -87,6 +87,9 @@ func tensorToProto(name string, t tensor.Tensor) *onnx.TensorProto {
 	return tp
 }
 
+// "" (none), "Concat" or "Expand": see buildFxModelD
+var passThrough = ""
+
 func buildFxModel(op string, fx fixture, weightsFrom int) *fxModel {
 	return buildFxModelD(op, fx, weightsFrom, false)
 }
@@ -128,6 +131,29 @@ func buildFxModelD(op string, fx fixture, weightsFrom int, defaults bool) *fxMod
 			feedIdx = append(feedIdx, i)
 		}
 	}
+	// pass-through variant: every tensor the node reads (fed input, default or weight) of rank >= 1 first
+	// goes through an identity-like node -- a one-input Concat, or an Expand to its own shape -- which may
+	// hand on the very same object under a new, intermediate name; the operator under test is its consumer
+	var pre []*onnx.NodeProto
+	if passThrough != "" {
+		for i, t := range ins {
+			if t == nil || len(t.Shape()) == 0 {
+				continue
+			}
+			src, via := node.Input[i], fmt.Sprintf("via%d", i)
+			if passThrough == "Concat" {
+				pre = append(pre, &onnx.NodeProto{OpType: "Concat", Input: []string{src}, Output: []string{via}, Attribute: []*onnx.AttributeProto{aI("axis", 0)}})
+			} else {
+				shp := make([]int64, len(t.Shape()))
+				for k, d := range t.Shape() {
+					shp[k] = int64(d)
+				}
+				g.Initializer = append(g.Initializer, &onnx.TensorProto{Name: via + "_shape", DataType: 7, Dims: []int64{int64(len(shp))}, Int64Data: shp})
+				pre = append(pre, &onnx.NodeProto{OpType: "Expand", Input: []string{src, via + "_shape"}, Output: []string{via}})
+			}
+			node.Input[i] = via
+		}
+	}
 	outs := fx.outputs
 	if len(outs) == 0 {
 		outs = []string{"out0"}
@@ -137,7 +163,7 @@ func buildFxModelD(op string, fx fixture, weightsFrom int, defaults bool) *fxMod
 		g.Output = append(g.Output, &onnx.ValueInfoProto{Name: o})
 	}
 	m.outNames = outs
-	g.Node = []*onnx.NodeProto{node}
+	g.Node = append(pre, node)
 	b, err := proto.Marshal(&onnx.ModelProto{IrVersion: 7, OpsetImport: []*onnx.OperatorSetIdProto{{Version: 13}}, Graph: g})
 	if err != nil {
 		return nil
@@ -231,7 +257,7 @@ func genC02(dir, tier string, seed int64) {
 	meta.GoOnly = append(meta.GoOnly, effectsAll)
 
 	// ---- stream 2: histories of Runs on one Model vs a fresh Model ----
-	hist := goOnlyResult{Stream: "C02_histories", Rule: "single-node models from every fixture (trailing inputs as initializers: weights, biases, initial states, axes, shapes; each also in the variant where those initializers are declared graph inputs, i.e. defaults that some calls of the history override with other values and other calls leave out) + the loadable sample models: histories of 2..6 Runs on ONE Model (same input objects re-used, the same objects refilled in place with other contents -- inputs and overriding weights alike --, fresh copies, interleaved failing calls: missing input, wrong rank); every Run compared bit for bit with the same call on a freshly loaded Model; caller tensors and Model parameters (through the verif hook) snapshotted before/after every Run", Violations: []string{}}
+	hist := goOnlyResult{Stream: "C02_histories", Rule: "single-node models from every fixture, and the same node reading every tensor through an identity-like node (a one-input Concat or an Expand to the tensor's own shape) (trailing inputs as initializers: weights, biases, initial states, axes, shapes; each also in the variant where those initializers are declared graph inputs, i.e. defaults that some calls of the history override with other values and other calls leave out) + the loadable sample models: histories of 2..6 Runs on ONE Model (same input objects re-used, the same objects refilled in place with other contents -- inputs and overriding weights alike --, fresh copies, interleaved failing calls: missing input, wrong rank); every Run compared bit for bit with the same call on a freshly loaded Model; caller tensors and Model parameters (through the verif hook) snapshotted before/after every Run", Violations: []string{}}
 	nHist := 2
 	if tier == "thorough" {
 		nHist = 40
@@ -257,6 +283,14 @@ func genC02(dir, tier string, seed int64) {
 				if m := buildFxModel(n, f, 0); m != nil {
 					models = append(models, m)
 				}
+			}
+			if nin >= 1 {
+				passThrough = []string{"Concat", "Expand"}[len(models)%2]
+				if m := buildFxModelD(n, f, 1, len(models)%4 < 2); m != nil {
+					m.op = n + " behind " + passThrough
+					models = append(models, m)
+				}
+				passThrough = ""
 			}
 		}
 	}
@@ -309,11 +343,19 @@ func genC02(dir, tier string, seed int64) {
 					case kind == 4 && len(fm.inNames) > 0: // failing call: an input missing
 						in = fm.mkInputs()
 						delete(in, fm.inNames[r.Intn(len(fm.inNames))])
-					default: // failing call: wrong rank
+					default: // failing call: wrong rank (six axes, or one axis less than declared)
 						in = fm.mkInputs()
 						if len(fm.inNames) > 0 {
 							nm := fm.inNames[r.Intn(len(fm.inNames))]
-							in[nm] = tensor.New(tensor.WithShape(1, 1, 1, 1, 1, 1), tensor.WithBacking([]float32{1}))
+							if sh := in[nm].Shape(); r.Intn(2) == 0 && len(sh) >= 2 {
+								n := 1
+								for _, d := range sh[1:] {
+									n *= d
+								}
+								in[nm] = tensor.New(tensor.WithShape(sh[1:]...), tensor.WithBacking(make([]float32, n)))
+							} else {
+								in[nm] = tensor.New(tensor.WithShape(1, 1, 1, 1, 1, 1), tensor.WithBacking([]float32{1}))
+							}
 						}
 					}
 					// a weight that is also a graph input: overridden in some calls, defaulted in the others
